@@ -23,6 +23,7 @@ import (
 	"syscall"
 	"testing"
 	"time"
+	"unsafe"
 )
 
 const (
@@ -697,4 +698,98 @@ func (c *Child) ListFiles(dirs ...string) (names []string) {
 	}
 
 	return names
+}
+
+// ---------------------------------------------------------------- fault injection
+
+const (
+	fsIocGetFlags = 0x80086601
+	fsIocSetFlags = 0x40086602
+	fsImmutableFl = 0x00000010
+)
+
+// SetImmutable sets or clears the immutable attribute of a directory (chattr
+// ±i): nothing can be created, renamed or removed in it, while the content of
+// the files it already holds can still be rewritten in place.  It is how the
+// harnesses make the atomic writer fail without touching the code under test.
+func SetImmutable(dir string, on bool) (err error) {
+	f, err := os.Open(dir)
+	if err != nil {
+		return err
+	}
+	defer f.Close()
+
+	var flags int
+	_, _, e := syscall.Syscall(syscall.SYS_IOCTL, f.Fd(), fsIocGetFlags, uintptr(unsafe.Pointer(&flags)))
+	if e != 0 {
+		return e
+	}
+	if on {
+		flags |= fsImmutableFl
+	} else {
+		flags &^= fsImmutableFl
+	}
+	_, _, e = syscall.Syscall(syscall.SYS_IOCTL, f.Fd(), fsIocSetFlags, uintptr(unsafe.Pointer(&flags)))
+	if e != 0 {
+		return e
+	}
+
+	return nil
+}
+
+// CanImmutable reports whether SetImmutable works below dir.
+func CanImmutable(dir string) bool {
+	d, err := os.MkdirTemp(dir, "imm")
+	if err != nil {
+		return false
+	}
+	defer os.Remove(d)
+	if SetImmutable(d, true) != nil {
+		return false
+	}
+	_, cerr := os.Create(filepath.Join(d, "x"))
+	_ = SetImmutable(d, false)
+	_ = os.Remove(filepath.Join(d, "x"))
+
+	return cerr != nil
+}
+
+// ClearImmutable clears the attribute on every directory below root (cleanup
+// after a crashed child).
+func ClearImmutable(root string) {
+	_ = filepath.WalkDir(root, func(p string, d os.DirEntry, err error) error {
+		if err == nil && d.IsDir() {
+			_ = SetImmutable(p, false)
+		}
+
+		return nil
+	})
+}
+
+// Probe is the value of the save line's probe field for a block mode and a
+// per-save fault: same | xdev | notmp | faildir.
+func Probe(blockMode, fault string) string {
+	if fault != "" {
+		return fault
+	}
+
+	return blockMode
+}
+
+// WithFault runs f (which contains the Window) with the given fault injected:
+// "notmp" points TMPDIR at a directory that does not exist, "faildir" makes the
+// destination directory immutable.
+func WithFault(probe, dest string, f func()) {
+	switch probe {
+	case "notmp":
+		old := os.Getenv("TMPDIR")
+		_ = os.Setenv("TMPDIR", filepath.Join(old, "does-not-exist"))
+		defer os.Setenv("TMPDIR", old)
+	case "faildir":
+		if err := SetImmutable(filepath.Dir(dest), true); err != nil {
+			panic(err)
+		}
+		defer SetImmutable(filepath.Dir(dest), false)
+	}
+	f()
 }
